@@ -16,7 +16,7 @@ func init() {
 	register(&Property{
 		ID:      "C11",
 		NeedSSA: true,
-		Decided: "Structural necessary conditions: (marker) the types whose method set contains the chunk-transparency marker are exactly the frozen allow-list (file row groups, buffers, row-range views), no type that declares its own Rows() obtains the marker or the segment accessor by promotion from an embedded type, and both fast-path entries test the marker before they look at column chunks; wrappers that change row semantics (merge with duplicate dropping) return no segments; (strict) in the eligibility predicates every inequality between a property of the source chunk and the destination writer's configuration refuses immediately, with no further condition attached; (limits) both fast-path entries compare the row count with the row-group limit; (nocopy) eligibility consults the encryption state (C18.nocopy); (rows) a function that feeds values read with ReadValues to ColumnWriter.WriteRowValues, whose contract is whole rows, finds row boundaries through the repetition levels; (order) the packing path flushes buffered rows before it sizes bloom filters and flushes a pending batch before it would exceed the row-group limit. (source) outside the static call closure of OpenFile and of the lazy page-index loader, no function of the package writes through a field of the File* types that holds parsed format structures (footer, row groups, column chunks, page indexes): what is copied from an open file is copied, not adjusted in place. (cloneall) a function that returns a struct starting from a shallow copy of its parameter and re-assigns some slice or map field with a copy re-assigns every slice and map field. (order, cont.) in Writer.WriteRowGroup every call that feeds the values of the row group to the column writers (the column-by-column re-encode, CopyRows) is dominated by the call that sizes the bloom filters for that row group.",
+		Decided: "Structural necessary conditions: (marker) the types whose method set contains the chunk-transparency marker are exactly the frozen allow-list (file row groups, buffers, row-range views), no type that declares its own Rows() obtains the marker or the segment accessor by promotion from an embedded type, and both fast-path entries test the marker before they look at column chunks; wrappers that change row semantics (merge with duplicate dropping) return no segments; (strict) in the eligibility predicates every inequality between a property of the source chunk and the destination writer's configuration refuses immediately, with no further condition attached; (limits) both fast-path entries compare the row count with the row-group limit; (nocopy) eligibility consults the encryption state (C18.nocopy); (rows) a function that feeds values read with ReadValues to ColumnWriter.WriteRowValues, whose contract is whole rows, finds row boundaries through the repetition levels; (order) the packing path flushes buffered rows before it sizes bloom filters and flushes a pending batch before it would exceed the row-group limit. (source) outside the static call closure of OpenFile and of the lazy page-index loader, no function of the package writes through a field of the File* types that holds parsed format structures (footer, row groups, column chunks, page indexes): what is copied from an open file is copied, not adjusted in place. (cloneall) a function that returns a struct starting from a shallow copy of its parameter and re-assigns some slice or map field with a copy re-assigns every slice and map field. (order, cont.) every call of the column-by-column re-encode, and the CopyRows call of Writer.WriteRowGroup, is dominated in its function by the call that sizes the bloom filters for that row group, and in Writer.WriteRowGroup every such sizing is dominated by the flush of the rows buffered before.",
 		NotDecided: "byte or row equality of the outputs; that the predicate lists every writer option that matters (options read on the encode path but not by the predicate are listed in the evidence notes, not decided); page boundary arithmetic.",
 		Assumptions: []string{"method sets are computed by go/types, promotion included"},
 		Run:         runC11,
@@ -24,7 +24,7 @@ func init() {
 	register(&Property{
 		ID:      "C09",
 		NeedSSA: true,
-		Decided: "Only the clause `equally when the merged row group is written to a file` is decided, structurally: (marker) mergedRowGroup and sortedSegmentRowGroup, dedup and converted wrappers do not carry the chunk-transparency marker, so the writer reads them through Rows(); mergedRowGroup declares its own segment accessor returning nil although it embeds a type that opts in; sortedSegmentRowGroup returns no segments on the duplicate-dropping path (the return of its segments is dominated by the test of dropDuplicatedRows); (bounds) the function that computes the key range of a sorted row group takes the direction of each sorting column from that column, not from a fixed one; (errors) the merge readers propagate read errors of their inputs (shared with C14.errflow). (bounds, cont.) the key range of a sorted row group consults the null counts of the column index and NullsFirst() of the sorting column. (nullcount) every count over definition levels (countLevelsEqual / countLevelsNotEqual on a value read from a field or parameter named after definition levels) compares with a maximum definition level, never with a constant. (wraporder) the argument of CompareDescending never derives from CompareNullsFirst / CompareNullsLast: the null placement is applied outside the reversal. (cutnulls) a function that turns the bounds of a column index into row positions (MinValue/MaxValue together with FirstRowIndex) also consults NullCount. (rebuild) a function that builds a plain row group from the ColumnChunks() of a RowGroup it was given calls chunkTransparentRowGroup first, and the call dominates the construction.",
+		Decided: "Only the clause `equally when the merged row group is written to a file` is decided, structurally: (marker) mergedRowGroup and sortedSegmentRowGroup, dedup and converted wrappers do not carry the chunk-transparency marker, so the writer reads them through Rows(); mergedRowGroup declares its own segment accessor returning nil although it embeds a type that opts in; sortedSegmentRowGroup returns no segments on the duplicate-dropping path (the return of its segments is dominated by the test of dropDuplicatedRows); (bounds) the function that computes the key range of a sorted row group takes the direction of each sorting column from that column, not from a fixed one; (errors) the merge readers propagate read errors of their inputs (shared with C14.errflow). (bounds, cont.) the key range of a sorted row group consults the null counts of the column index and NullsFirst() of the sorting column. (nullcount) every count over definition levels (countLevelsEqual / countLevelsNotEqual on a value read from a field or parameter named after definition levels) compares with a maximum definition level, never with a constant. (wraporder) the argument of CompareDescending never derives from CompareNullsFirst / CompareNullsLast: the null placement is applied outside the reversal. (cutnulls) a function that turns the bounds of a column index into row positions (MinValue/MaxValue together with FirstRowIndex) also consults NullCount. (rebuild) a function that builds a plain row group from the ColumnChunks() of a RowGroup it was given calls chunkTransparentRowGroup first, and the call dominates the construction. (sortstale) no value loaded from an element of a slice before a sorting call on that slice (slices.Sort*, sort.Slice*, sort.Sort) is used after the call: what is read first is an element of the caller's order, not of the sorted one.",
 		NotDecided: "sortedness, multiset equality, stability and deduplication of the merged sequence: the loser tree, run detection, range refinement and the page-boundary cut are value-dependent (a cut comparison that is `>=` instead of `>` is not visible structurally).",
 		Assumptions: []string{"method sets are computed by go/types, promotion included"},
 		Run:         runC09,
@@ -287,29 +287,60 @@ func runC11(c *Ctx) {
 		})
 		c.Check(rule, "packSegmentsByColumn flushes buffered rows before sizing bloom filters", wf.Pos(), flush != nil && conf != nil && dominates(flush, conf), "bloom filters are sized for the incoming segments while earlier rows are still buffered (see C07.strategies)")
 	}
-	if o := p.LookupFunc("(*Writer).WriteRowGroup"); c.Anchor(rule, "(*Writer).WriteRowGroup", o != nil) {
-		wf := p.SSAFunc(o)
-		var confs []ssa.Instruction
-		var feeds []ssa.CallInstruction
-		allCalls(wf, false, func(_ *ssa.Function, call ssa.CallInstruction) {
-			switch calleeName(call) {
-			case "(*ConcurrentRowGroupWriter).configureBloomFilters":
-				confs = append(confs, call.(ssa.Instruction))
-			case "(*Writer).writeRowGroupByColumn", "CopyRows":
-				feeds = append(feeds, call)
+	{
+		// wherever the values of a row group are fed to the column writers in
+		// bulk — the column-by-column re-encode anywhere, CopyRows in
+		// WriteRowGroup — the bloom filters have been sized first
+		nFeeds := 0
+		for _, wf := range p.ModuleSSAFuncs() {
+			if wf.Origin() != nil || wf.Blocks == nil || fnPkgPath(wf) != modPath {
+				continue
 			}
-		})
-		for _, f := range feeds {
-			ok := false
-			for _, cf := range confs {
-				if dominates(cf, f.(ssa.Instruction)) {
-					ok = true
+			isEntry := FuncKey(wf) == "(*Writer).WriteRowGroup"
+			var confs, flushes []ssa.Instruction
+			var feeds []ssa.CallInstruction
+			allCalls(wf, false, func(_ *ssa.Function, call ssa.CallInstruction) {
+				switch calleeName(call) {
+				case "(*writer).flush":
+					flushes = append(flushes, call.(ssa.Instruction))
+				case "(*ConcurrentRowGroupWriter).configureBloomFilters":
+					confs = append(confs, call.(ssa.Instruction))
+				case "(*Writer).writeRowGroupByColumn":
+					feeds = append(feeds, call)
+				case "CopyRows":
+					if isEntry {
+						feeds = append(feeds, call)
+					}
+				}
+			})
+			// … and, where the function first flushes the rows buffered by earlier
+			// Write calls, only after that flush: those rows belong to the previous
+			// row group, whose filters must not be re-sized under them
+			if isEntry && len(flushes) > 0 {
+				for _, cf := range confs {
+					ok := false
+					for _, fl := range flushes {
+						if dominates(fl, cf) {
+							ok = true
+						}
+					}
+					c.Check(rule, "WriteRowGroup sizes the bloom filters after flushing the rows buffered before", cf.Pos(), ok,
+						"WriteRowGroup sizes (and zeroes) the bloom filters for the incoming row group at "+p.Pos(cf.Pos())+" before the rows buffered by earlier Write calls are flushed: the flush writes the previous row group with filters sized for another one, only its last buffered page lands in them, and values of that row group are reported absent")
 				}
 			}
-			c.Check(rule, "WriteRowGroup sizes the bloom filters before "+calleeName(f)+" writes the values", f.Pos(), ok,
-				"the values of the row group reach the column writers ("+calleeName(f)+") before configureBloomFilters has sized the filters: the pages flushed in between are never inserted (flushFilterPages takes an allocated filter as proof that earlier pages are in it), and the file carries a bloom filter that reports values of the column as absent")
+			for _, f := range feeds {
+				nFeeds++
+				ok := false
+				for _, cf := range confs {
+					if dominates(cf, f.(ssa.Instruction)) {
+						ok = true
+					}
+				}
+				c.Check(rule, "the bloom filters are sized before "+calleeName(f)+" writes the values of a row group", f.Pos(), ok,
+					"in "+FuncKey(wf)+" the values of the row group reach the column writers ("+calleeName(f)+") before configureBloomFilters has sized the filters: the pages flushed in between are never inserted (flushFilterPages takes an allocated filter as proof that earlier pages are in it), and the file carries a bloom filter that reports values of the column as absent")
+			}
 		}
-		c.Check(rule, "WriteRowGroup: the calls that feed values to the column writers were found", wf.Pos(), len(feeds) >= 2, "rule table out of date")
+		c.Check(rule, "the calls that feed the values of a row group to the column writers were found", token.NoPos, nFeeds >= 2, "rule table out of date")
 	}
 	if o := p.LookupFunc("(*Writer).writeSegmentsPacked"); c.Anchor(rule, "(*Writer).writeSegmentsPacked", o != nil) {
 		wf := p.SSAFunc(o)
@@ -369,6 +400,7 @@ func lookupFuncs(p *Prog, keys ...string) []*ssa.Function {
 func runC09(c *Ctx) {
 	c09NullCount(c)
 	c09Rebuild(c)
+	runSortStaleRule(c, "C09.sortstale", 5)
 	c10WrapOrder(c)
 	p := c.P
 	markerRule(c, "C09.marker")
